@@ -66,6 +66,12 @@ def compare(cp, text) -> tuple[str, list]:
         fails.append(("exception", f"{type(got[1]).__name__}: {str(got[1])[:120]}"))
         return "EXC", fails
     if ref[0] == "OK" and got[0] != "OK":
+        try:
+            denoted_structure(ref[1], text)
+        except metaref.DenoteReject:
+            return "both-reject", fails  # matches the meta-grammar, but pest's consumer rejects it too
+        except DenoteUnsupported:
+            pass
         fails.append(("rejects-valid", f"valid pest grammar rejected: {_msg(got[1])}"))
         return "rejects", fails
     if ref[0] != "OK" and got[0] == "OK":
@@ -77,6 +83,11 @@ def compare(cp, text) -> tuple[str, list]:
         want = denoted_structure(ref[1], text)
     except DenoteUnsupported as e:
         raise symx.Unsupported(f"denotation: {e}") from e
+    except metaref.DenoteReject as e:
+        if got[0] == "OK":
+            fails.append(("accepts-invalid", f"pest rejects this text ({e}) but a Parser was built"))
+            return "accepts", fails
+        return "both-reject", fails
     have = built_structure(got[1])
     names = [r[0] for r in want["rules"]]
     if not _unique(names):
